@@ -892,6 +892,16 @@ func genSequence(g *Gen) ([]w.Val, []string) {
 		}
 		calls = append(calls, callVal(q, us, sp))
 	}
+	if len(ts) > 0 && g.Chance(0.3) {
+		// a call that fails after it has worked through the valid tiles (a failing tile last), then the first request again: whatever the
+		// failed call left behind (pooled buffers, partly filled de-duplication sets) must not reach the next result
+		b, bt := badTile(g, p)
+		bad := append(append([]tile{}, ts...), b)
+		if est(p, bad, spatial) <= genCap(spatial) {
+			calls = append(calls, callVal(p, bad, spatial), callVal(p, ts, spatial))
+			tags = append(tags, "failing-tail", bt)
+		}
+	}
 	return []w.Val{calls}, append(tags, "sequence", Tag("calls=%d", len(calls)))
 }
 
